@@ -294,6 +294,12 @@ T('C02', 'twin-min-reordered-test', QE,
 T('C02', 'twin-extra-slot-attribute', SB,
   "    __slots__ = ('name',)\n", "    __slots__ = ('name', 'help')\n")
 
+M('C02', 'store-reinitialised-for-every-row', QX,
+  "                store = aggregates[key]\n", "                store = aggregates[key]\n                for c_expr in c_aggregate_exprs:\n                    c_expr.initialize(store)\n",
+  ('R-AGGPROTO', 'execute_select'))
+T('C02', 'twin-plain-dict-get-then-create', QX,
+  "                store = aggregates[key]\n", "                store = aggregates.get(key)\n                if store is None:\n                    store = aggregates[key]\n")
+
 # ---------------------------------------------------------------------- C03
 R('C03', 'regress-D24-order-by-bound', '3d6b355-ORDER-BY-position-is-checked-against-the-number-of.diff',
   ('R-IDXBOUND', '_compile_order_by'))
